@@ -32,6 +32,7 @@ pub fn run_case(env: &Env, ctx: &mut Ctx, idx: u64) {
     o.predefined_names = false; // K2 belongs to C04
     o.sv_cov = false;
     o.line_file = true;
+    o.define_in_body = false; // provenance of definitions that come out of expansions is not modelled
     let setup = if multi {
         o.max_depth = 3;
         let prog = gen_pp::multi_file(&mut rng, o, 3);
